@@ -111,3 +111,5 @@ func WriteJSON(path string, v interface{}) error {
 }
 
 func since(t time.Time) float64 { return float64(time.Since(t).Milliseconds()) / 1000 }
+
+func jsonUnmarshal(s string, v interface{}) error { return json.Unmarshal([]byte(s), v) }
